@@ -384,8 +384,58 @@ def rule_V8(ctx) -> None:
             ctx.proved("V8", name, mod.loc(fn), f"{n} paths")
 
 
+def rule_V9(ctx) -> None:
+    """a copy does not change the original, and it does not make a child present that was not: the copy routines hand the
+    original's raw children to the constructor, i.e. through Message.__setattr__.  If __setattr__ writes into the *assigned
+    value* (it marks a field-less message as present - the only way such a message can be set), the copy routines must undo
+    that for the children they pass along (shared with the original in a shallow copy)"""
+    mod = ctx.repo.mod(M_INIT)
+    sa = mod.func("Message.__setattr__")
+    ctx.analysed("Message.__setattr__")
+    val_p = sa.args.args[2].arg
+    marks = set()
+    for p in interp_for(mod).run(sa):
+        for e in p.events:
+            if e.kind == "store" and e.data[0][0] == "a" and e.data[0][1] == N(val_p) and e.data[0][2] in STATE_ATTRS:
+                marks.add(e.data[0][2])
+    if not marks:
+        for name in ("__copy__", "__deepcopy__"):
+            ctx.proved("V9", f"{name}:children-flags-unchanged", mod.loc(sa), "__setattr__ does not write into the assigned value")
+        return
+    for name in ("__copy__", "__deepcopy__"):
+        fn = mod.func(f"Message.{name}")
+        selfname = fn.args.args[0].arg
+        paths = interp_for(mod).run(fn)
+        ctx.count(len(paths))
+        bad = False
+        n = 0
+        for p in paths:
+            if p.outcome == "raise":
+                continue
+            ctor = [i for i, e in enumerate(p.events) if e.kind == "call" and any(k is None or k == "#" for k, _ in e.data[3])
+                    and (dotted(e.data[1]).endswith("__class__") or dotted(e.data[1]) in ("cls", "type(self)", f"type({selfname})"))]
+            if not ctor:
+                continue
+            n += 1
+            new_obj = p.events[ctor[0]].data
+            restores = [e for e in p.events[ctor[0] + 1:] if e.kind == "store" and e.data[0][0] == "a" and e.data[0][2] in marks
+                        and e.data[0][1] not in (new_obj, N(selfname)) and e.data[1][0] != "c"]
+            if not restores:
+                bad = True
+        cname = f"{name}:children-flags-unchanged"
+        if not n:
+            ctx.proved("V9", cname, mod.loc(fn), "does not rebuild through the constructor")
+        elif bad:
+            ctx.refuted("V9", cname, f"__setattr__ writes value.{sorted(marks)[0]}", mod.loc(fn),
+                        f"{name} passes the original's raw children to the constructor; Message.__setattr__ sets {sorted(marks)} on an assigned message whose class has no fields, so a "
+                        "field-less child that was only created by a read is marked present - in a shallow copy it is the original's own child object, i.e. copying changes what the "
+                        "original encodes", "class Empty(Message): pass; m = M(); m.e; copy.copy(m); bytes(m) now carries `e`")
+        else:
+            ctx.proved("V9", cname, mod.loc(fn), "the children's flags are put back after construction")
+
+
 def run(ctx) -> None:
-    for name, fn in (("V1", rule_V1), ("V1b", rule_V1b), ("V2", rule_V2), ("V3", rule_V3), ("V4", rule_V4), ("V5", rule_V5), ("V6", rule_V6), ("D3", presence.rule_D3), ("V7", presence.rule_V7), ("V8", rule_V8)):
+    for name, fn in (("V9", rule_V9), ("V1", rule_V1), ("V1b", rule_V1b), ("V2", rule_V2), ("V3", rule_V3), ("V4", rule_V4), ("V5", rule_V5), ("V6", rule_V6), ("D3", presence.rule_D3), ("V7", presence.rule_V7), ("V8", rule_V8)):
         ctx.rules_run.append(name)
         fn(ctx)
     ctx.assume("external callees are pure unless in the mutator list; aliases arise only by name binding")
